@@ -110,6 +110,7 @@ func (monH) Execute(c *Case, res *Result) {
 				}
 			}()
 		}
+		reported := map[string]*coretypes.StatusMeta{}
 		create := func(node string) {
 			op := cluOp{App: "app", Entry: "main", Strategy: "AUTO", Count: 1 + int(sim.Gen.Uint64()%2), Includes: nil, Req: resReq{MemReq: 64 * mib}}
 			o := w.deployOpts(op)
@@ -121,7 +122,10 @@ func (monH) Execute(c *Case, res *Result) {
 			var metas []*coretypes.StatusMeta
 			for m := range ch {
 				if m.Error == nil {
-					metas = append(metas, &coretypes.StatusMeta{ID: m.WorkloadID, Running: true, Healthy: true})
+					// running, and healthy or not yet (health check pending)
+					sm := &coretypes.StatusMeta{ID: m.WorkloadID, Running: true, Healthy: sim.Gen.Uint64()%3 != 0}
+					reported[m.WorkloadID] = sm
+					metas = append(metas, sm)
 				}
 			}
 			if len(metas) > 0 {
@@ -206,8 +210,8 @@ func (monH) Execute(c *Case, res *Result) {
 			}
 			for _, id := range sortedKeys(st.NodeWL[n.Name]) {
 				sm, err := w.core.cal.GetStore().GetWorkloadStatus(ctx, id)
-				if err == nil && sm != nil && (!sm.Running || !sm.Healthy) {
-					w.viol("C28", "live-node-marked-down", "live", fmt.Sprintf("node %s kept heartbeating but its workload %s is reported running=%v healthy=%v", n.Name, shortID(id), sm.Running, sm.Healthy))
+				if rep := reported[id]; err == nil && sm != nil && rep != nil && (sm.Running != rep.Running || sm.Healthy != rep.Healthy) {
+					w.viol("C28", "live-node-marked-down", "live", fmt.Sprintf("node %s kept heartbeating but its workload %s is reported running=%v healthy=%v (its agent said running=%v healthy=%v)", n.Name, shortID(id), sm.Running, sm.Healthy, rep.Running, rep.Healthy))
 				}
 			}
 		}
